@@ -45,3 +45,13 @@ package call
 //@ modifies loopCount, rcall.loopCount, rcall.lastChild
 //@ assert before BuildCallChain#1 loopCount == 0
 //@ assert before BuildRCallChain#1 rcall.loopCount == 0 && rcall.lastChild == ""
+
+// C03: the table the call chains are built from has exactly the declared methods of the model as keys (a method that is
+// declared is never missing, nothing else is ever a key)
+//@ func BuildMethodMap
+//@ ensures result != nil
+//@ ensures forall s string :: {s in result} (s in result) <==> DeclD(structs, len(structs), s)
+//@ loop 1 invariant methodMap != nil
+//@ loop 1 invariant forall s string :: {s in methodMap} {DeclD(structs, #i, s)} (s in methodMap) <==> DeclD(structs, #i, s)
+//@ loop 2 invariant methodMap != nil
+//@ loop 2 invariant forall s string :: {s in methodMap} {DeclIn(clz, #i, s)} (s in methodMap) <==> (DeclD(structs, #i1, s) || DeclIn(clz, #i, s))
